@@ -320,4 +320,192 @@ theorem link_after_feed (scn : Scn) (s s' : St) (m : Mon) (used : List Nat) (c :
         rw [contains_false] at h2
         exact h2 this
 
+theorem HS_of_link (scn : Scn) (s : St) (m : Mon) (used : List Nat) (L : Link scn s m used)
+    (hup : s.phase = .up) (h0 : 0 ∈ s.pending ↔ s.connRet = false) : HS s :=
+  ⟨hup, L.rdead, L.wdead, L.closing, L.done, L.closeWait, L.handed, h0.mp, L.nodup⟩
+
+/-- **one read**: the monitor raises nothing on the model's tokens, and the books still agree -/
+theorem link_feed (scn : Scn) (hh : Healthy scn) (s : St) (m : Mon) (used : List Nat) (L : Link scn s m used)
+    (n : Nat) (ch : List Nat) :
+    monCheck (mkCtx scn m (.feed n ch) (step scn repaired s (.feed n ch)).2) = none ∧
+    Link scn (step scn repaired s (.feed n ch)).1 (monNext (mkCtx scn m (.feed n ch) (step scn repaired s (.feed n ch)).2)) used := by
+  rw [step_feed scn repaired s n ch L.sbody]
+  generalize hfed' : min (s.fed + n) scn.full.length = fed'
+  have hfedle : fed' ≤ scn.full.length := by omega
+  have hsfed : s.fed ≤ fed' := by have := L.fedle; omega
+  have hmono : m.nComplete ≤ completeN scn.items fed' := by rw [L.ncomp]; exact completeN_mono _ _ _ hsfed
+  have hn0le : m.nComplete ≤ scn.items.length := by rw [L.ncomp]; exact completeN_le _ _
+  have hmsgs : scn.msgsUpTo (completeN scn.items fed') = scn.msgsUpTo m.nComplete ++ (newMsgs scn m.nComplete (completeN scn.items fed')).map (·.2) :=
+    msgsUpTo_split scn _ _ hmono hn0le
+  have hgood : ∀ p ∈ (newMsgs scn m.nComplete (completeN scn.items fed')).map (·.2), goodPayload p = true := by
+    intro p hp
+    obtain ⟨ip, hip, rfl⟩ := List.mem_map.mp hp
+    exact newMsgs_good scn hh.labelled _ _ ip hip
+  -- the context of the step, whatever the tokens
+  have hctx : ∀ toks, let c := mkCtx scn m (.feed n ch) toks
+      c.n' = completeN scn.items fed' ∧ c.live = newMsgs scn m.nComplete (completeN scn.items fed') ∧
+      c.excused' = false ∧ c.m = m ∧ c.scn = scn ∧ c.op = .feed n ch ∧ c.toks = toks := by
+    intro toks
+    have := mkCtx_feed scn hh m n ch toks L.mbody L.excused trivial
+    rw [L.fed, hfed'] at this
+    exact this
+  rcases L.phase with ⟨hph, hnep, hpend0, hcr0, hposted0, hfin0⟩ | ⟨hph, hep, hseen, h0⟩
+  · by_cases hb : epIdx scn.items < completeN scn.items fed'
+    · -- the endpoint event arrives in this read
+      obtain ⟨s', hfb, hs', hpend, hlists, hfed, hseen', hbody, hcr⟩ :=
+        feedBytes_greet scn hh s fed' m.nComplete hph hnep hb ⟨L.rdead, L.wdead, L.closing, L.done, L.closeWait⟩ hcr0
+          (by rw [L.handed, hcr0])
+      rw [hfb]
+      obtain ⟨u, hu, hurl⟩ := withUrl_eq s' ([Tok.post (.call 0)] ++ (hRun s.lists [0] ((newMsgs scn m.nComplete (completeN scn.items fed')).map (·.2))).2)
+      simp only [hu]
+      obtain ⟨c1, c2, c3, c4, c5, c6, c7⟩ := hctx (([Tok.post (.call 0)] ++ (hRun s.lists [0] ((newMsgs scn m.nComplete (completeN scn.items fed')).map (·.2))).2) ++ u)
+      constructor
+      · apply feed_checks _ [0] ((newMsgs scn m.nComplete (completeN scn.items fed')).map (·.2)) [.post (.call 0)] u
+        · rw [c7, c4, L.lists]
+        · exact Or.inr rfl
+        · exact hurl
+        · rw [c2]
+        · rw [c1, c5, c4]; exact hmsgs
+        · exact hgood
+        · simp
+        · intro k hk hk0; simp at hk; exact absurd hk hk0
+        · intro k hk0 hp; rw [c4, hposted0] at hp; simp at hp
+        · intro _ _; simp
+        · exact ⟨n, ch, c6⟩
+        · rw [c4]; exact L.termSeen
+        · rw [c4, c5]; exact L.nts
+        · rw [c4, c5]; exact L.answered
+      · apply link_after_feed scn s s' m used _ L [0] ((newMsgs scn m.nComplete (completeN scn.items fed')).map (·.2)) [.post (.call 0)] u fed'
+        · exact ⟨c4, c5, ⟨n, ch, c6, by rw [L.fed, hfed']⟩, c3, c1⟩
+        · rw [c7]
+        · exact Or.inr rfl
+        · exact hurl
+        · exact hmsgs
+        · exact hgood
+        · simp
+        · intro k hk0
+          rw [hposted0]
+          constructor
+          · intro hk; simp at hk; exact absurd hk hk0
+          · intro hk; simp at hk
+        · simp [hcr0]
+        · intro _; exact hposted0
+        · exact hs'
+        · exact hpend
+        · exact hlists
+        · exact hfed
+        · exact hseen'
+        · exact hbody
+        · rw [hcr, hcr0]; rfl
+        · exact hfedle
+        · exact hb
+    · -- still waiting for the endpoint event
+      have hb' : completeN scn.items fed' ≤ epIdx scn.items := by omega
+      rw [feedBytes_wait scn hh s fed' hph hb']
+      have hnone : newMsgs scn m.nComplete (completeN scn.items fed') = [] := by
+        unfold newMsgs
+        apply msgFrom_before
+        simp only [List.length_drop, List.length_take]
+        have := completeN_le scn.items fed'
+        omega
+      obtain ⟨c1, c2, c3, c4, c5, c6, c7⟩ := hctx (withUrl { s with fed := fed' } [])
+      have hw : withUrl { s with fed := fed' } [] = [] := by simp [withUrl]
+      constructor
+      · apply feed_checks _ [] [] [] []
+        · rw [c7, hw]; simp [hRun]
+        · exact Or.inl rfl
+        · simp
+        · rw [c2, hnone]; rfl
+        · rw [c1, c5, c4, hmsgs, hnone]; rfl
+        · simp
+        · simp
+        · simp
+        · intro k hk0 hp; rw [c4, hposted0] at hp; simp at hp
+        · intro h; simp at h
+        · exact ⟨n, ch, c6⟩
+        · rw [c4]; exact L.termSeen
+        · rw [c4, c5]; exact L.nts
+        · rw [c4, c5]; exact L.answered
+      · -- the books: only the byte counter moved
+        have hmsgs0 : scn.msgsUpTo (completeN scn.items fed') = scn.msgsUpTo m.nComplete := by
+          rw [hmsgs, hnone]; simp
+        generalize hcdef : mkCtx scn m (.feed n ch) (withUrl { s with fed := fed' } []) = c at c1 c2 c3 c4 c5 c6 c7
+        rw [hw] at c7
+        have hnc : (monNext c).nComplete = completeN scn.items fed' := by simp [monNext, c1]
+        exact
+          { excused := by simp [monNext, c3]
+            termSeen := by simp [monNext, c4, c7, L.termSeen]
+            mbody := by simp [monNext, c4, L.mbody]
+            sbody := L.sbody
+            fed := by simp [monNext, c6, c4, L.mbody, c5, L.fed, hfed']
+            ncomp := hnc
+            lists := by simp [monNext, c6, c4, L.lists]
+            connRet := by simp [monNext, c4, c7, L.connRet]
+            nts := by rw [hnc, hmsgs0]; simp [monNext, c4, c7, ntsOf, L.nts]
+            answered := by intro id; rw [hnc, hmsgs0, ← L.answered id]; simp [monNext, c4, c7, respIdsOf, postsOf]
+            started := by simp only [monNext, c6, c4]; exact L.started
+            posted := by simp only [monNext, c6, c4, c7, callsIn, postsOf, List.filterMap_nil, List.append_nil]; exact L.posted
+            pend := by simp only [monNext, c4, c7, callsIn, postsOf, donesOf, List.filterMap_nil, List.map_nil, List.append_nil]; exact L.pend
+            nodup := L.nodup
+            rdead := L.rdead
+            wdead := L.wdead
+            closing := L.closing
+            done := L.done
+            closeWait := L.closeWait
+            handed := L.handed
+            fedle := hfedle
+            phase := Or.inl ⟨hph, by rw [hnc]; exact hb', hpend0, hcr0,
+              by simp only [monNext, c4, c7, callsIn, postsOf, List.filterMap_nil, List.append_nil]; exact hposted0,
+              by simp only [monNext, c4, c7, donesOf, List.filterMap_nil, List.map_nil, List.append_nil]; exact hfin0⟩ }
+  · -- the connection is up
+    have hs : HS s := HS_of_link scn s m used L hph h0
+    obtain ⟨s', hfb, hs', hpend, hlists, hfed, hseen', hbody, hcr⟩ := feedBytes_up scn hh s fed' m.nComplete hph hseen hmono hep hs
+    rw [hfb]
+    obtain ⟨u, hu, hurl⟩ := withUrl_eq s' ((hRun s.lists s.pending ((newMsgs scn m.nComplete (completeN scn.items fed')).map (·.2))).2)
+    simp only [hu]
+    obtain ⟨c1, c2, c3, c4, c5, c6, c7⟩ := hctx ((hRun s.lists s.pending ((newMsgs scn m.nComplete (completeN scn.items fed')).map (·.2))).2 ++ u)
+    constructor
+    · apply feed_checks _ s.pending ((newMsgs scn m.nComplete (completeN scn.items fed')).map (·.2)) [] u
+      · rw [c7, c4, L.lists]; simp
+      · exact Or.inl rfl
+      · exact hurl
+      · rw [c2]
+      · rw [c1, c5, c4]; exact hmsgs
+      · exact hgood
+      · exact L.nodup
+      · intro k hk hk0
+        rw [c4]
+        obtain ⟨h1, h2⟩ := (L.pend k hk0).mp hk
+        exact ⟨L.posted k h1 hk0, h2⟩
+      · intro k hk0 hp hf
+        rw [c4] at hp hf
+        exact (L.pend k hk0).mpr ⟨hp, hf⟩
+      · intro _ hc
+        rw [c4, L.connRet] at hc
+        exact h0.mpr hc
+      · exact ⟨n, ch, c6⟩
+      · rw [c4]; exact L.termSeen
+      · rw [c4, c5]; exact L.nts
+      · rw [c4, c5]; exact L.answered
+    · apply link_after_feed scn s s' m used _ L s.pending ((newMsgs scn m.nComplete (completeN scn.items fed')).map (·.2)) [] u fed'
+      · exact ⟨c4, c5, ⟨n, ch, c6, by rw [L.fed, hfed']⟩, c3, c1⟩
+      · rw [c7]; simp
+      · exact Or.inl rfl
+      · exact hurl
+      · exact hmsgs
+      · exact hgood
+      · exact L.nodup
+      · exact L.pend
+      · exact h0
+      · intro h; cases h
+      · exact hs'
+      · exact hpend
+      · exact hlists
+      · exact hfed
+      · exact hseen'
+      · exact hbody
+      · exact hcr
+      · exact hfedle
+      · omega
+
 end SseClient
